@@ -77,64 +77,157 @@ func ruleC07NilGuard(c *Ctx) {
 	}
 }
 
-func ruleC07LengthGuard(c *Ctx) {
-	u := c.U1
-	c.rule("C07.length-guard", "in cryptoFunc.Decrypt every slice of the input at len(data)-NonceSize() is dominated by the false edge of len(data) < NonceSize() (or an equivalent >= test)", 2)
-	f := u.Method(pkgAead, "cryptoFunc", "Decrypt")
-	if f == nil {
-		c.unresolved("cryptoFunc.Decrypt", "(cryptoFunc).Decrypt")
-		return
+// sameExpr: structural equality of two size expressions (len(x) of the same x, the same method on the same receiver,
+// the same constant, the same SSA value).
+func sameExpr(a, b ssa.Value) bool {
+	a, b = resolve(a), resolve(b)
+	if a == b {
+		return true
 	}
-	c.FuncsAnalysed[shortName(f)] = true
-	isLenData := func(v ssa.Value) bool {
-		cv, ok := strip(v).(*ssa.Call)
-		if !ok {
+	if ka, ok := constOf(a); ok {
+		if kb, ok2 := constOf(b); ok2 {
+			return ka.ExactString() == kb.ExactString()
+		}
+		return false
+	}
+	ca, ok1 := a.(*ssa.Call)
+	cb, ok2 := b.(*ssa.Call)
+	if ok1 && ok2 {
+		if ba, isB := ca.Call.Value.(*ssa.Builtin); isB {
+			if bb, isB2 := cb.Call.Value.(*ssa.Builtin); isB2 && ba.Name() == bb.Name() && len(ca.Call.Args) == 1 && len(cb.Call.Args) == 1 {
+				return resolve(ca.Call.Args[0]) == resolve(cb.Call.Args[0]) || (accessPath(ca.Call.Args[0]) == accessPath(cb.Call.Args[0]) && !strings.HasPrefix(accessPath(ca.Call.Args[0]), "V:"))
+			}
 			return false
 		}
-		b, isB := cv.Call.Value.(*ssa.Builtin)
-		return isB && b.Name() == "len" && isParamNamed(cv.Call.Args[0], f, 1)
+		if ca.Call.IsInvoke() && cb.Call.IsInvoke() && ca.Call.Method == cb.Call.Method && len(ca.Call.Args) == 0 {
+			return resolve(ca.Call.Value) == resolve(cb.Call.Value) || accessPath(ca.Call.Value) == accessPath(cb.Call.Value)
+		}
+		if ga, gb := staticCallee(ca), staticCallee(cb); ga != nil && ga == gb && len(ca.Call.Args) == len(cb.Call.Args) {
+			for k := range ca.Call.Args {
+				if !sameExpr(ca.Call.Args[k], cb.Call.Args[k]) {
+					return false
+				}
+			}
+			return len(ca.Call.Args) > 0
+		}
 	}
-	isNonceSize := func(v ssa.Value) bool {
-		cv, ok := strip(v).(*ssa.Call)
-		return ok && cv.Call.IsInvoke() && cv.Call.Method.Name() == "NonceSize"
+	return false
+}
+
+// knownGE: a dominating branch fact at block b establishes x >= y.
+func knownGE(x, y ssa.Value, b *ssa.BasicBlock) bool {
+	for _, fct := range factsAt(b) {
+		bo, ok := fct.V.(*ssa.BinOp)
+		if !ok {
+			continue
+		}
+		switch {
+		case bo.Op == token.LSS && sameExpr(bo.X, x) && sameExpr(bo.Y, y) && !fct.True,
+			bo.Op == token.GEQ && sameExpr(bo.X, x) && sameExpr(bo.Y, y) && fct.True,
+			bo.Op == token.GTR && sameExpr(bo.X, y) && sameExpr(bo.Y, x) && !fct.True,
+			bo.Op == token.LEQ && sameExpr(bo.X, y) && sameExpr(bo.Y, x) && fct.True:
+			return true
+		}
 	}
-	n := 0
-	allInstrs(f, func(i ssa.Instruction) {
-		sl, ok := i.(*ssa.Slice)
-		if !ok || !isParamNamed(sl.X, f, 1) {
+	return false
+}
+
+func isLenOf(v ssa.Value, x ssa.Value) bool {
+	cv, ok := resolve(v).(*ssa.Call)
+	if !ok {
+		return false
+	}
+	b, isB := cv.Call.Value.(*ssa.Builtin)
+	return isB && b.Name() == "len" && (resolve(cv.Call.Args[0]) == resolve(x) || accessPath(cv.Call.Args[0]) == accessPath(x))
+}
+
+// ruleC07LengthGuard: on the decrypt path no slice expression or make() size derived from attacker-controlled lengths can
+// go out of range: a bound `len(x) - n` needs a dominating len(x) >= n, any other non-constant bound B of x[..] needs a
+// dominating B <= len(x), and a make() size computed by subtraction needs its operands ordered by a dominating test.
+func ruleC07LengthGuard(c *Ctx) {
+	u := c.U1
+	c.rule("C07.length-guard", "in every repo function reachable from DecryptDataRowRecord / Session.Load: each slice bound `len(x)-n` is dominated by len(x) >= n, each other non-constant bound B of x[…] by B <= len(x), and each make() size computed by subtraction by a test ordering its operands (truncated / short inputs must yield an error, not a panic)", 2)
+	cg := newCallGraph(u)
+	funcs := map[*ssa.Function]bool{}
+	for _, start := range []*ssa.Function{u.Method(pkgApp, "envelopeEncryption", "DecryptDataRowRecord"), u.Method(pkgApp, "Session", "Load"), u.Method(pkgApp, "Session", "Decrypt")} {
+		if start == nil {
+			c.unresolved("decrypt entry points", "DecryptDataRowRecord / Session.Load")
 			return
 		}
-		n++
-		construct := shortName(f) + "/slice"
-		for _, bound := range []ssa.Value{sl.Low, sl.High} {
-			if bound == nil {
-				continue
-			}
-			bo, isB := resolve(bound).(*ssa.BinOp)
-			if !isB || bo.Op != token.SUB || !isLenData(bo.X) || !isNonceSize(bo.Y) {
-				c.undecided(construct, u.ipos(i), "slice bound is not len(data) - NonceSize()")
-				return
+		for f := range cg.reachableFrom(start) {
+			if f.Blocks != nil && f.Pkg != nil && strings.HasPrefix(f.Pkg.Pkg.Path(), "github.com/godaddy/asherah/") {
+				funcs[f] = true
 			}
 		}
-		guarded := false
-		for _, fct := range factsAt(i.Block()) {
-			b, isB := fct.V.(*ssa.BinOp)
-			if !isB {
-				continue
-			}
-			switch {
-			case b.Op == token.LSS && isLenData(b.X) && isNonceSize(b.Y) && !fct.True,
-				b.Op == token.GEQ && isLenData(b.X) && isNonceSize(b.Y) && fct.True,
-				b.Op == token.GTR && isNonceSize(b.X) && isLenData(b.Y) && !fct.True,
-				b.Op == token.LEQ && isNonceSize(b.X) && isLenData(b.Y) && fct.True:
-				guarded = true
-			}
-		}
-		c.check(guarded, construct, u.ipos(i), "dominated by len(data) >= NonceSize()", "the ciphertext is sliced at len(data)-NonceSize() without a dominating length check: a truncated record panics (slice bounds out of range)")
-	})
-	if n == 0 {
-		c.unresolved(shortName(f)+"/slice", "slicing of the data parameter")
 	}
+	n := 0
+	for f := range funcs {
+		allInstrs(f, func(i ssa.Instruction) {
+			switch x := i.(type) {
+			case *ssa.Slice:
+				if _, fresh := resolve(x.X).(*ssa.MakeSlice); fresh {
+					return
+				}
+				if a, isA := x.X.(*ssa.Alloc); isA && (a.Comment == "varargs" || a.Comment == "makeslice" || a.Comment == "slicelit") {
+					return
+				}
+				if _, isArr := x.X.Type().Underlying().(*types.Pointer); isArr {
+					return // pointer to array: bounds are static
+				}
+				for _, bound := range []ssa.Value{x.Low, x.High, x.Max} {
+					if bound == nil {
+						continue
+					}
+					if _, isC := constOf(bound); isC {
+						if k, _ := constOf(bound); k.ExactString() == "0" {
+							continue
+						}
+					}
+					n++
+					c.CallSites++
+					c.FuncsAnalysed[shortName(f)] = true
+					construct := trimPkgDirs(shortName(f)) + "/slice-bound " + describeOperand(bound)
+					ok := false
+					if bo, isB := resolve(bound).(*ssa.BinOp); isB && bo.Op == token.SUB && isLenOf(bo.X, x.X) {
+						ok = knownGE(bo.X, bo.Y, i.Block())
+					} else {
+						// B <= len(x)
+						for _, fct := range factsAt(i.Block()) {
+							b2, isB2 := fct.V.(*ssa.BinOp)
+							if !isB2 {
+								continue
+							}
+							switch {
+							case b2.Op == token.LSS && isLenOf(b2.X, x.X) && sameExpr(b2.Y, bound) && !fct.True,
+								b2.Op == token.GEQ && isLenOf(b2.X, x.X) && sameExpr(b2.Y, bound) && fct.True,
+								b2.Op == token.GTR && sameExpr(b2.X, bound) && isLenOf(b2.Y, x.X) && !fct.True,
+								b2.Op == token.LEQ && sameExpr(b2.X, bound) && isLenOf(b2.Y, x.X) && fct.True:
+								ok = true
+							}
+						}
+						if isLenOf(bound, x.X) {
+							ok = true
+						}
+					}
+					c.check(ok, construct, u.ipos(i), "bound is dominated by the matching length test", "a slice bound on the decrypt path is not protected by a dominating length check: a short or truncated input panics (slice bounds out of range) instead of returning an error")
+				}
+			case *ssa.MakeSlice:
+				for _, sz := range []ssa.Value{x.Len, x.Cap} {
+					bo, isB := resolve(sz).(*ssa.BinOp)
+					if !isB || bo.Op != token.SUB {
+						continue
+					}
+					n++
+					c.CallSites++
+					c.FuncsAnalysed[shortName(f)] = true
+					construct := trimPkgDirs(shortName(f)) + "/make-size"
+					c.check(knownGE(bo.X, bo.Y, i.Block()), construct, u.ipos(i), "size a-b with a dominating a >= b", "a buffer size on the decrypt path is computed by subtraction without a dominating check that it cannot be negative: a short input panics (makeslice: len/cap out of range)")
+				}
+			}
+		})
+	}
+	c.note("C07.length-guard: %d repo functions reachable from the decrypt entry points scanned", len(funcs))
+	_ = n
 }
 
 func ruleC07AuthenticatedOnly(c *Ctx) {
